@@ -7,7 +7,7 @@ AL = 'tbox::alarm::Alarm'
 
 
 def scope_units():
-    return [p[len(MODULES) + 1:] for p in sorted(glob.glob(MODULES + '/alarm/*.cpp')) if not p.endswith('_test.cpp')]
+    return [p[len(MODULES) + 1:] for p in sorted(glob.glob(MODULES + '/alarm/*.cpp') + glob.glob(MODULES + '/alarm/3rd-party/*.cpp')) if not p.endswith('_test.cpp')]
 
 
 def flows_from(f, sid, pred, depth=0, seen=None):
@@ -25,6 +25,27 @@ def flows_from(f, sid, pred, depth=0, seen=None):
                 if d['rhs'] is not None and flows_from(f, d['rhs'], pred, depth + 1, seen):
                     return True
     return False
+
+
+def true_returns(f):
+    """[(return stmt, flag decl or None, [(cond, k)] facts that hold when the return yields true)]: constant `return true`, or the return of a
+    local flag with one definition (the flag is true exactly when its defining expression is)"""
+    out = []
+    for r in q.returns(f):
+        c = q.return_const(f, r)
+        if c == 1:
+            out.append((r, None, []))
+        elif c is None and r.get('val') is not None:
+            x = f.s(f.strip_casts(r['val']))
+            if x is not None and x['k'] == 'DeclRefExpr' and x.get('dk') == 'Var':
+                defs = rd.local_defs(f, x['d'])
+                if len(defs) == 1 and defs[0]['rhs'] is not None:
+                    out.append((r, x['d'], [(defs[0]['rhs'], 0)]))
+                else:
+                    out.append((r, x['d'], []))
+            elif x is not None:
+                out.append((r, None, [(x['i'], 0)]))
+    return out
 
 
 def r1(ctx, prog):
@@ -149,8 +170,21 @@ def r5(ctx, prog):
         cur = f.params[0]
         ws = [st for st in f.stmts if st and st['k'] in ('BinaryOperator', 'CompoundAssignOperator') and st.get('op') in ('=', '+=') and
               f.s(f.strip_casts(st['ch'][0])).get('d') == out['d']]
-        trues = [r for r in q.returns(f) if q.return_const(f, r) == 1]
-        okw = bool(ws) and bool(trues) and all(not f.cfg.exists_path(f.cfg.entry_point(), q.pt(f, r), avoid=q.pts(f, ws)) for r in trues)
+        trues = true_returns(f)
+        okw = bool(ws) and bool(trues)
+        for r, flag, facts in trues:
+            rp = q.pt_or_term(f, r)
+            if not f.cfg.exists_path(f.cfg.entry_point(), rp, avoid=q.pts(f, ws)):
+                continue
+            # `return flag`: the write may sit behind `if (flag)` — then it has run whenever the flag is true
+            behind = False
+            if flag is not None:
+                for w in ws:
+                    for cond, k, b in f.cfg.controlling_branches(q.pt(f, w)):
+                        t = q.simple_test(f, cond)
+                        if t and t[0] == flag and (t[1] == 'nz') == (k == 0) and f.cfg.dominates(f.cfg.point_of(cond), rp):
+                            behind = True
+            okw = okw and behind
         ctx.ob('C20.R5', '%s|writes-out' % f.name, okw, 'out-parameter is assigned on every path to `return true`', where=f.loc(f.body))
         # strictly after: a comparison curr < next (or curr >= next handled by stepping) guards/precedes the true return
         strict = False
@@ -354,6 +388,64 @@ def r8(ctx, prog):
         raise AnalysisBroken('expected >= 2 methods cancelling the armed timer, found %d' % n)
 
 
+def r9(ctx, prog):
+    ctx.rule('C20.R9', 'A9d sentinel discipline: where a calculateNextLocalTimeSec override takes the instant from a function that reports "no instant" by returning a '
+             'negative constant (ccronexpr\'s cron_next: (time_t)-1), the value is compared with that constant (or tested < 0) and the failing edge does not return '
+             'true — an unmatched configuration is refused like in the sibling alarms, not armed for epoch second 2^32-1', floor=1)
+    n = 0
+    for f in prog.funcs.values():
+        if f.short != 'calculateNextLocalTimeSec' or not f.file.startswith(MODULES + '/alarm/') or f.parent_func is not None:
+            continue
+        for c in f.calls():
+            sent = set()
+            for g in prog.by_usr.get(c.get('usr'), ()):
+                for r in q.returns(g):
+                    v = (g.s(r['ch'][0]) or {}).get('cv') if r.get('ch') else None
+                    if v is not None and v < 0:
+                        sent.add(v)
+            if not sent:
+                continue
+            n += 1
+            # the value: the call itself in a condition, or the local/out-parameter it is assigned to
+            holder = None
+            par = f.s(f.parent.get(c['i']))
+            while par is not None and par['k'] in ('ImplicitCastExpr', 'CStyleCastExpr', 'CXXStaticCastExpr', 'ParenExpr', 'ExprWithCleanups'):
+                par = f.s(f.parent.get(par['i']))
+            if par is not None and par['k'] == 'BinaryOperator' and par.get('op') == '=':
+                holder = ('expr', f.path(par['ch'][0]))
+            elif par is not None and par['k'] in ('DeclStmt', 'VarDecl'):
+                holder = ('var', None)
+            for st in f.stmts:
+                if st and st['k'] == 'DeclStmt':
+                    for d in st['decls']:
+                        if 'init' in d and c['i'] in set(f.walk(d['init'])):
+                            holder = ('expr', d['n'])
+            trues = true_returns(f)
+            bad = []
+            for r, flag, facts in trues:
+                rp = q.pt_or_term(f, r)
+                ok = False
+                for cond, k, b in list(q.guards_incl_flags(f, rp)) + [(c_, k_, None) for c_, k_ in facts]:
+                    rel = q.edge_relation(f, cond, k)
+                    if not rel:
+                        continue
+                    for l, o, rr in ((rel[0], rel[1], rel[2]), (rel[2], q._SWAP[rel[1]], rel[0])):
+                        names_value = (holder and holder[1] and l == holder[1]) or (c['i'] in set(f.walk(cond)))
+                        cv = None
+                        for x in f.walk(cond):
+                            if f.stmts[x].get('cv') is not None and f.stmts[x]['cv'] in sent | {0}:
+                                cv = f.stmts[x]['cv']
+                        if names_value and cv is not None and ((cv in sent and o == '!=') or (cv == 0 and o in ('>=', '>'))):
+                            ok = True
+                if not ok:
+                    bad.append(r)
+            ctx.ob('C20.R9', '%s|%s-sentinel' % (f.name, c.get('fn')), not bad, 'every `return true` lies behind a test of the result against the "no instant" value' if not bad else
+                   '%s() returns %s when no instant matches, and %s returns true at %s without testing for it: the alarm is armed for epoch second 4294967295 minus the '
+                   'zone offset instead of refusing (enable() == true for "0 0 0 30 2 *")' % (c.get('fn'), sorted(sent), f.short, f.loc(bad[0]['i'])), where=f.loc(c['i']))
+    if n < 1:
+        raise AnalysisBroken('no sentinel-returning callee found in the calculateNextLocalTimeSec overrides (cron_next body not in the program?)')
+
+
 def run(ctx):
     prog = extract('ALL' if ctx.tier == 'thorough' else scope_units())
     ctx.guard(r1, ctx, prog)
@@ -364,4 +456,5 @@ def run(ctx):
     ctx.guard(r6, ctx, prog)
     ctx.guard(r7, ctx, prog)
     ctx.guard(r8, ctx, prog)
+    ctx.guard(r9, ctx, prog)
     return prog
